@@ -126,11 +126,9 @@ func runDedup[N aggregation.Number](k *kind[N], c *Case, st *stats) []viol {
 				return []viol{{pre + "PartialToFieldValues-error", perr.Error()}}
 			}
 			dp := &measurev1.DataPoint{}
-			gname := groupNames[0]
+			gname := c.gname(c.Rows[sh[s][0]].G)
 			if p.group >= 0 {
-				gname = groupNames[p.group]
-			} else {
-				gname = groupNames[c.Rows[sh[s][0]].G]
+				gname = c.gname(p.group)
 			}
 			dp.TagFamilies = []*modelv1.TagFamily{{Name: tagFamily, Tags: []*modelv1.Tag{{Key: tagGroup, Value: strTag(gname)}}}}
 			for i, fv := range fvs {
@@ -197,7 +195,7 @@ func runDedup[N aggregation.Number](k *kind[N], c *Case, st *stats) []viol {
 	for gi, rows := range grpRows {
 		g := ""
 		if gi >= 0 {
-			g = groupNames[gi]
+			g = c.gname(gi)
 		}
 		wantGroups[g] = rows
 		names = append(names, g)
